@@ -272,6 +272,8 @@ def jobs(tier):
             js.append({"for": "C11", "mode": "sheet", "layout": "base" if blanks == 0 else "gaps", "order": ",".join(order), "blanks": blanks, "rows": 1})
     js.append({"for": "C11", "mode": "sheet", "layout": "base", "order": "in,out,intra", "blanks": 1, "rows": 2})
     js.append({"for": "C11", "mode": "sheet", "layout": "rot:5", "order": "intra,in,out", "blanks": 1, "rows": 2})
+    js.append({"for": "C11", "mode": "sheet", "layout": "base", "order": "in,out,intra", "blanks": 150, "rows": 1})
+    js.append({"for": "C11", "mode": "sheet", "layout": "base", "order": "out,intra,in", "blanks": 1000, "rows": 1})
     if tier == "thorough":
         for order in permutations(TABLES):
             js.append({"for": "C11", "mode": "sheet", "layout": "rot:1", "order": ",".join(order), "blanks": 1, "rows": 2})
@@ -337,7 +339,7 @@ def bounds(tier):
     return {
         "layouts": "per table: base, reversed, interleaved unmapped columns, every mandatory field in column 0, every field in a far column (23), every optional field / all optional fields absent from the config, rotations of the non-zero columns",
         "optional_cells": "every combination of empty/filled optional cells on the base layout, 2-3 representative combinations on the other layouts",
-        "tables": "all 6 orders of IN/OUT/INTRA, 0-2 blank rows between tables, 1-2 data rows per table",
+        "tables": "all 6 orders of IN/OUT/INTRA, 0-2 (and 150, 1000) blank rows between tables, 1-2 data rows per table",
         "numeric_cells": "any multiple of 1e-18 in [1e-11, 1e9] (amounts) / [1e-11, 1e7] (prices), standing for an arbitrary real",
         "timestamps": "any instant of 2020 at microsecond resolution with any whole-minute UTC offset in [-12:00, +14:00]",
         "numeric_faults": "faulty value v: any v <= -1e-11 ('neg'), v = 0 ('zero'), received >= sent + 2e-11, both fees >= 1e-11",
